@@ -40,8 +40,23 @@ def parse(out):
 
 
 def run_harness(exe, args, timeout):
-    p = subprocess.run([exe] + args, stdout=subprocess.PIPE, stderr=subprocess.PIPE, timeout=timeout)
-    return p.returncode, p.stdout.decode("utf-8", "replace"), p.stderr.decode("utf-8", "replace")
+    """The harness creates and deletes thousands of small cache directories (every cold resolution downloads its universe
+    again); on a memory file system that is several times faster than on disk, which is what keeps the quick tier's case
+    counts independent of the load on the machine. The resolver renames from $TMPDIR into the cache directory, so both
+    live under the one TMPDIR given here."""
+    env = dict(os.environ)
+    tmp = None
+    if os.path.isdir("/dev/shm") and os.access("/dev/shm", os.W_OK):
+        tmp = "/dev/shm/verif-mvs-%d" % os.getpid()
+        os.makedirs(tmp, exist_ok=True)
+        env["TMPDIR"] = tmp
+    try:
+        p = subprocess.run([exe] + args, stdout=subprocess.PIPE, stderr=subprocess.PIPE, timeout=timeout, env=env)
+        return p.returncode, p.stdout.decode("utf-8", "replace"), p.stderr.decode("utf-8", "replace")
+    finally:
+        if tmp:
+            import shutil
+            shutil.rmtree(tmp, ignore_errors=True)
 
 
 def model_key(c, drv, v):
@@ -114,7 +129,7 @@ def run(c, prop, rule, judge_note):
     run_corpus(c, exe, drv, prop)
     # C11's sequences are the expensive ones (every edit is re-run for determinism, idempotence and, on a share of the
     # edits, under injected faults): a longer slice of the quick tier keeps >= 800 sequences
-    budget = ("27s" if prop == "C11" else "20s") if c.tier == "quick" else "420s"
+    budget = ("20s" if prop == "C11" else "18s") if c.tier == "quick" else "420s"
     rc, out, err = run_harness(exe, ["-seed", str(c.seed), "-tier", c.tier, "-prop", prop, "-budget", budget], 3000)
     pairs, viols, stats = parse(out)
     if rc != 0:
